@@ -150,6 +150,12 @@ pub fn base_module(id: &str, rng: &mut Rng, small: bool) -> Result<gen::GenModul
         "C07" => {
             cfg.min_globals = 2;
             cfg.max_globals = 5;
+            // 1 base in 6 has imported globals only (ids handed out by the add_* calls then come from another branch)
+            if rng.chance(1, 6) {
+                cfg.min_globals = 0;
+                cfg.max_globals = 0;
+                cfg.min_imp_globals = 2;
+            }
             cfg.min_imp_globals = 1;
             cfg.max_imp_globals = 3;
             // initialiser / offset expressions read any imported global, so that deleting or adding an import in front of it matters
